@@ -458,7 +458,16 @@ func (x *Exec) applyContract(st *State, fr *Frame, con *Contract, key string, na
 	if fr != nil {
 		// recorded for the calling function and for every function it is inlined into (helpers and closures
 		// of the function under analysis are executed in place; their calls count as its own)
-		rec := callRec{args: args, results: results}
+		x.fresh++
+		targs := append([]V(nil), args...)
+		for i, n := range names {
+			if i < len(targs) {
+				if tv, ok := vars[n]; ok && tv.K == KPtr && tv.Typ != nil && targs[i].Typ == nil {
+					targs[i] = tv // pointer arguments carry their static type (clauses name the fields behind them)
+				}
+			}
+		}
+		rec := callRec{args: targs, results: results, seq: x.fresh}
 		for _, f := range st.frames {
 			if f.lastCall == nil {
 				f.lastCall = map[string]callRec{}
